@@ -21,6 +21,11 @@ var nestedPrefixGroups = [][][2]string{
 var flatOverrides = [][2]string{
 	{"equal", "isEq"}, {"compare", "cmp"}, {"clone", "cp_"}, {"deepcopy", "copyTo"}, {"gostring", "goStr"}, {"unique", "uniq"},
 	{"contains", "has"}, {"union", "or_"}, {"intersect", "and_"}, {"tuple", "tup"}, {"compose", "then"}, {"traverse", "trav"},
+	// every plugin can be overridden; several plugin names are substrings of others (curry / uncurry, set / ...)
+	{"uncurry", "flat"}, {"curry", "spice"}, {"flip", "turn"}, {"mem", "memo"}, {"keys", "ks"}, {"sort", "ord"}, {"set", "mkset"},
+	{"hash", "h_"}, {"min", "least"}, {"max", "most"}, {"all", "every"}, {"any", "some"}, {"do", "par"}, {"join", "flatten"},
+	{"fmap", "mapf"}, {"filter", "keep"}, {"takewhile", "tw"}, {"apply", "app"}, {"toerror", "mustOk"}, {"pipeline", "pipe"}, {"dup", "tee"},
+	{"uncurry", "flat"}, {"curry", "spice"},
 }
 
 // DrawPrefixes sets w.GlobalPfx / w.Prefix from the tape (nothing when the
@@ -45,10 +50,21 @@ func (w *World) DrawPrefixes(t *tape.Tape) {
 	}
 	for i := t.Intn(3); i > 0; i-- {
 		kv := flatOverrides[t.Intn(len(flatOverrides))]
+		if t.Chance(1, 3) && len(w.Calls) > 0 {
+			// an override for a plugin the package uses
+			pl := w.Calls[t.Intn(len(w.Calls))].Plugin
+			for _, cand := range flatOverrides {
+				if cand[0] == pl {
+					kv = cand
+					break
+				}
+			}
+		}
 		if _, ok := w.Prefix[kv[0]]; !ok {
 			w.Prefix[kv[0]] = kv[1]
 		}
 	}
+	w.PrefixRot = t.Intn(3)
 	if len(w.Prefix) == 0 {
 		w.Prefix = nil
 	}
@@ -69,6 +85,11 @@ func (w *World) PrefixFlags() []string {
 		var ps []string
 		for _, k := range ks {
 			ps = append(ps, k+"="+w.Prefix[k])
+		}
+		// the order of the pairs on the command line is a drawn rotation of the sorted order
+		if n := len(ps); n > 1 {
+			r := w.PrefixRot % n
+			ps = append(ps[r:], ps[:r]...)
 		}
 		fl = append(fl, "-pluginprefix="+strings.Join(ps, ","))
 	}
